@@ -180,7 +180,9 @@ def family_plan(pid, quick, seed):
     rnd = random.Random(seed * 7919 + 13)
     pick = lambda fam, n: rnd.sample(range(FAMILY_SHARDS[fam]), n)
     if quick:
-        if pid == "C05":
+        if pid == "C13":
+            plan = [("KXK", s, 6) for s in pick("KXK", 6)] + [("KXXK", s, 900) for s in pick("KXXK", 4)] + [("PROMO", s, 8) for s in pick("PROMO", 2)] + [("CASTLE", s, 6) for s in pick("CASTLE", 2)]
+        elif pid == "C05":
             plan = [("KXK", s, 3) for s in pick("KXK", 7)] + [("KXXK", s, 600) for s in pick("KXXK", 5)] + [("PROMO", s, 6) for s in pick("PROMO", 2)]
         elif pid == "C02":
             plan = [("CASTLE", s, 3) for s in pick("CASTLE", 5)] + [("EP", s, 4) for s in pick("EP", 4)] + [("PROMO", s, 5) for s in pick("PROMO", 3)] + [("KXK", s, 8) for s in pick("KXK", 2)]
@@ -191,7 +193,9 @@ def family_plan(pid, quick, seed):
                 + [("PROMO", s, 5) for s in pick("PROMO", 2)] + [("PIN", s, 80) for s in pick("PIN", 2)]
     else:
         # thorough: complete enumeration of the cheap families, strided enumeration of the large ones (~25-35 min on 16 cores)
-        if pid == "C05":
+        if pid == "C13":
+            plan = [("KXK", s, 2) for s in range(64)] + [("KXXK", s, 800) for s in range(128)] + [("PROMO", s, 4) for s in range(16)] + [("CASTLE", s, 3) for s in range(10)]
+        elif pid == "C05":
             plan = [("KXK", s, 1) for s in range(64)] + [("KXXK", s, 400) for s in range(128)] + [("PROMO", s, 2) for s in range(16)]
         elif pid == "C10":
             plan = [("PIN", s, 10) for s in range(20)] + [("KXK", s, 2) for s in range(64)] + [("EP", s, 2) for s in range(28)] + [("CASTLE", s, 2) for s in range(10)]
@@ -351,6 +355,11 @@ def check_eval(pid, tier, seed):
     n, nt, samples = eval_samples(os.path.join(wd, "play.eval.ndjson"), pid == "C05")
     chk.coverage.update({"evaluations": n, "distinct_nontrivial": nt, "samples": samples,
                          "rule": "positions visited by seeded random play, each evaluated from both perspectives at plies 0,1,2,9,10,11,64 together with its colour-mirrored twin (mirror verified against Chess!Mirror by TLC); non-trivial = distinct positions that differ from their own mirror image"})
+    if pid == "C13":
+        tot = family_replay(chk, wvbin, wd, pid, family_plan(pid, quick, seed))
+        chk.coverage["evaluations"] += tot.get("positions", 0)
+        chk.coverage["distinct_nontrivial"] += tot.get("positions", 0)
+        chk.coverage["rule"] += "; plus every position of the specification-enumerated endgame/castling/promotion families with the mirrored position supplied by Chess!Mirror (all terminal positions met included), both relations at plies 0, 3, 11"
     if pid == "C05":
         tot = family_replay(chk, wvbin, wd, pid, family_plan(pid, quick, seed))
         chk.coverage["evaluations"] += tot.get("positions", 0)
